@@ -151,6 +151,13 @@ def check(pid, tier, seed, only_report=None):
                 bad_clause = set()
                 bad_body = set()
                 for ob, f in failed_ids.items():
+                    if "SHAPE" in f["props"]:
+                        # a code-derived shape clause (DESIGN I.1): it pins down HOW the code does something the property does
+                        # not prescribe; when it stops matching, the obligations built on it are undecided, never an alarm
+                        fn_ = f["obligation"].split(":")[2]
+                        if any(x["name"] == fn_ and pid in x.get("props", []) for x in u.functions):
+                            tool_errors.append("[%s] shape clause %s no longer matches the code (%s): the obligations of %s that are stated through it are undecided" % (un, ob, f["message"][:120], pid))
+                        continue
                     if pid in f["props"]:
                         failures.append(f)
                         if f["kind"] == "clause":
